@@ -48,7 +48,7 @@ theorem invalidate_stale : ∀ (fuel : Nat) (h : Heap) (e : Option Nat) (h' : He
 
 theorem truncate_stale (h : Heap) (p : Nat) (h1 : Heap) (e : truncate h p = .ok h1) (q : Nat)
     (hq : h.link q = some q) : h1.link q = some q := by
-  unfold truncate at e
+  rw [truncate_def] at e
   by_cases hv : invalid h p = true
   · simp [hv] at e
   · simp only [hv, Bool.false_eq_true, if_false] at e
@@ -62,7 +62,7 @@ theorem truncate_stale (h : Heap) (p : Nat) (h1 : Heap) (e : truncate h p = .ok 
 
 theorem remove_stale (h : Heap) (p : Nat) (h1 : Heap) (v : Int) (e : remove h p = .ok (h1, v)) (q : Nat)
     (hq : h.link q = some q) : h1.link q = some q := by
-  unfold remove atEnd at e
+  rw [remove_def] at e; unfold atEnd at e
   by_cases hv : invalid h p = true
   · simp [hv] at e
   · simp only [hv, Bool.false_eq_true, if_false, bind_ok] at e
